@@ -553,7 +553,8 @@ fn sanitize_table_name(table_name: &str) -> String {
     if name.len() > 189 {
         name = name[..189].to_string();
     }
-    if name != table_name {
+    // An empty directory name would put the table's files directly into `tables/`.
+    if name != table_name || name.is_empty() {
         use sha2::{Digest, Sha256};
         let mut hasher = Sha256::new();
         hasher.update(table_name.as_bytes());
